@@ -55,8 +55,8 @@ type tcase struct {
 	Scripts map[string]string `json:"scripts"` // workspace content (name -> text); the script to run is Name
 	Other   map[string]string `json:"other_files,omitempty"`
 	Name    string            `json:"name"`
-	Mode    string            `json:"mode"`   // workspace | file-bare | file-path
-	Input   string            `json:"input"`  // text | lineprotocol | none
+	Mode    string            `json:"mode"`  // workspace | file-bare | file-path
+	Input   string            `json:"input"` // text | lineprotocol | none
 	Data    string            `json:"data"`
 	Format  string            `json:"format"` // json | lineprotocol
 }
@@ -399,6 +399,7 @@ var stmtPool = []string{
 	"set_measurement(\"newm\")", "set_measurement(host, true)", "set_measurement(message)", "set_measurement(nokey)",
 	"add_key(ts, \"2021-05-27 06:54:14.760 UTC\")\ndefault_time(ts)", "add_key(ts, \"1600000123\")\ndefault_time(ts)", "add_key(ts, \"2014-04-26 13:13:43 +0800\")\ndefault_time(ts, \"+8\")", "default_time(message)",
 	"x = len(message)\nadd_key(x)", "if n == 3 { add_key(three, true) } else { add_key(three, false) }", "for i in [1, 2] { add_key(last, i) }",
+	"add_key(time, 1600000000123456789)", "add_key(time, \"not an int\")", "rename(time, n)", "cast(time, \"int\")",
 	"grok(_, \"%{WORD:w1} %{WORD:w2}\")", "grok(msg, \"%{WORD:first}\")", "printf(\"%v\\n\", message)", "exit()\nadd_key(never, 1)",
 }
 
@@ -411,6 +412,11 @@ var lpInputs = []string{
 	"disk,host=a,path=/ free=0.25,message=\"two words\",n=3i 1234567890123456789\ncpu second=1i 1\n",
 	"m,t1=v1,t2=v2 message=\"hello world\",big=9007199254740993i,neg=-1i,f=-0.5 1609459200000000000\n",
 	"weird\\ name,ta\\,g=v\\ 1 fi\\ eld=\"q\\\"uote\",n=3i 42\n",
+	"# a leading comment line\ncpu,host=h1 usage=1.5,n=3i 1600000000000000000\n",
+	"\n\ncpu,host=h1 usage=2.5,n=3i 1600000000000000001\n",
+	"logs,host=h1 message=\"first line\nsecond line\",n=3i 1600000000000000002\n",
+	"ev,host=h1 time=1600000000000000000i,n=3i,message=\"has a time field\" 1600000000000000003\n",
+	"ev time=5i\n",
 }
 
 var textInputs = []string{"hello world", "two words here", "", "  padded  ", "héllo wörld", "line1\nline2", "42"}
